@@ -180,6 +180,7 @@ class Config:
         self.inline_only = None  # optional set of "module.qualname" allowed to be interpreted
         self.max_unroll = 64
         self.attr_hook = None  # callable(interp, obj, name) -> value | _MISSING
+        self.global_overrides = {}  # module-level names replaced by symbolic stand-ins (e.g. a generic registry)
         self.modifies_args = False  # contract: the target may write into arrays reachable from its arguments
         self.inline_generators = set()  # generator functions whose body is run as a trace producer (on_yield hook)
 
@@ -974,6 +975,9 @@ class Interp:
         return node.value
 
     def ex_Name(self, node, frame):
+        ov = self.cfg.global_overrides
+        if ov and node.id in ov and node.id not in frame.locals and node.id not in frame.closure:
+            return ov[node.id]
         v = frame.lookup(node.id)
         if isinstance(v, SOpt):
             v = self.resolve(v)
